@@ -511,3 +511,38 @@ Proof.
   destruct (owners_exists (threads s)) as (t & th & H & Ho); [rewrite C; lia|].
   exists t, th. split; [exact H | split; [exact Ho | eapply owner_enabled; eauto]].
 Qed.
+
+(* ---- the full-strength statements are false of the faithful model: witness ---- *)
+Definition gap_progs : list (list op) := [[OExec; OJoin]; [OExec]].
+Definition gap_sched : list nat := [1; 0; 0; 0; 0; 2; 2; 2; 0]%nat.
+Definition gap_state : st := run st step (init 4 true [] gap_progs) gap_sched.
+
+Lemma gap_reach : Reach 4 true [] gap_progs gap_state.
+Proof. exists gap_sched. reflexivity. Qed.
+
+(* thread 1 holds ticket 0 unpublished; thread 0's item (ticket 1) is published, signalled, its execute() returned 0,
+   the consumer launched for it has polled (nothing: ticket 0 not ready), reset the counter and exited *)
+Theorem eq_never_stranded_refuted : exists progs s k c,
+  Reach 4 true [] progs s /\ nth_error (cells s) k = Some c /\ (npop s <= k)%nat /\ cpub c = true /\ csig c = true /\
+  returned (threads s) c = true /\ owners (threads s) = 0%nat /\ events s = 0 /\ stale s = false.
+Proof.
+  exists gap_progs, gap_state, 1%nat, {| cown := 0; cseq := 0; cpub := true; csig := true |}.
+  split; [exact gap_reach | vm_compute; repeat split; try reflexivity; lia].
+Qed.
+
+Theorem eq_join_returns_after_refuted : exists progs s th m,
+  Reach 4 true [] progs s /\ nth_error (threads s) 0 = Some th /\ nth_error (prog th) 0 = Some OExec /\
+  results th = [RExec 0; RJoin m] /\ m <> 0%nat.
+Proof.
+  exists gap_progs, gap_state. eexists. exists 1%nat.
+  split; [exact gap_reach | vm_compute; repeat split; try reflexivity; lia].
+Qed.
+
+(* non-vacuity: a refused launch, a later accepted signal, everything consumed *)
+Definition resume_progs : list (list op) := [[OExec; OSignal; OJoin]].
+Definition resume_sched : list nat := [0; 0; 0; 0; 0; 0; 0; 1; 1; 1; 1; 1; 1; 0]%nat.
+Definition resume_state : st := run st step (init 2 true [true] resume_progs) resume_sched.
+Lemma resume_example : Reach 2 true [true] resume_progs resume_state /\ all_done resume_state = true /\
+  stale resume_state = false /\ delivered resume_state = [(0, 0)]%nat /\
+  (exists th, nth_error (threads resume_state) 0 = Some th /\ results th = [RExec (-1); RSignal 0; RJoin 0]).
+Proof. split; [exists resume_sched; reflexivity | vm_compute; repeat split; eauto]. Qed.
